@@ -302,6 +302,7 @@ def Top.matches (t : Top) (s : Str) : Bool :=
   atom     := literal | "." | class | "(" alt ")"
   class    := "[" "^"? item+ "]"   with `parseItems` defined, raw `]` only first, raw `^` not first
                                      of a non-negated class, no raw `\`, no raw `[` before raw `:`.
+  `level r` computes the lowest of these levels at which the tree `r` stands (none: outside).
 -/
 
 def itemsShapeOk : Bool → List CItem → Bool
@@ -764,8 +765,19 @@ def BItem.mem (i : BItem) (x : Rune) : Bool :=
   | .range lo hi => lo ≤ x && x ≤ hi
   | .cls k => k.mem x
 
+/-- With case folding, characters and ranges are compared up to case; POSIX classes are not
+    (bash: `shopt -s nocasematch; [[ Q == [[:lower:]] ]]` is false). -/
+def BItem.memFold (nc : Bool) (i : BItem) (x : Rune) : Bool :=
+  match i with
+  | .cls k => k.mem x
+  | _ => (variants nc x).any (fun y => i.mem y)
+
 def bracketMem (nc neg : Bool) (items : List BItem) (x : Rune) : Bool :=
-  neg != (variants nc x).any (fun y => items.any (·.mem y))
+  neg != items.any (·.memFold nc x)
+
+def BItem.isCls : BItem → Bool
+  | .cls _ => true
+  | _ => false
 
 /-! ### Parsing -/
 
@@ -1048,6 +1060,7 @@ def malformed (m : Mode) (p : Str) : Option Err :=
       contains the slash (negated, range, class), `**(`; without dotglob, `?`, a bracket
       expression or a pattern-list where the pattern alone does not exclude the start of a path
       component, and `*` after another wildcard that may have matched nothing;
+    * with NoGlobCase, a bracket expression with a POSIX class (Go folds the class as well);
     * unterminated pattern-lists, bare parentheses inside a pattern-list, `!(…)`, and in
       filename mode a slash inside a pattern-list.
 -/
@@ -1105,7 +1118,7 @@ def supp (m : Mode) (inGroup : Bool) : Nat → Pos → Rune → Str → Bool
       if c = cBang then false
       else
         match scanGroup m.filenames (rest.length + 1) 0 [] [] rest.tail with
-        | .error _ => true                 -- both report the malformed bracket expression
+        | .error _ => false
         | .ok none => false
         | .ok (some (alts, rest')) =>
           (!dotSens || pos == .mid) &&
@@ -1134,6 +1147,8 @@ def supp (m : Mode) (inGroup : Bool) : Nat → Pos → Rune → Str → Bool
        | .ok neg items rest' =>
          -- pattern.go lets a negated bracket, a range or a class that contains `/` match a slash
          !(m.filenames && (neg || items.any (·.mem cSlash))) &&
+         -- `(?i)` also folds POSIX classes
+         !(m.nocase && items.any (·.isCls)) &&
          (!dotSens || pos == .mid) && supp m inGroup fuel .mid cRB rest'
        | .notBracket => supp m inGroup fuel .mid cLB rest
        | .malformed _ => true)
@@ -1142,5 +1157,49 @@ def supp (m : Mode) (inGroup : Bool) : Nat → Pos → Rune → Str → Bool
 
 /-- The patterns covered by `regexp_language`. -/
 def supported (m : Mode) (p : Str) : Bool := supp m false (p.length + 1) .start 0 p
+
+/-! ### flat pattern-lists
+
+  The extra hypothesis of the language theorem for extended operators: every pattern-list is
+  *flat* — its alternatives consist of ordinary characters, escaped characters, `?` and `*` only
+  (no bracket expression, no nested list).  `flatRest` reads such a list from just after `op(`. -/
+
+def consHead (c : Str) : List Str → List Str
+  | [] => [c]
+  | a :: as => (c ++ a) :: as
+
+/-- The alternatives of a flat pattern-list and the rest after its closing parenthesis. -/
+def flatRest : Str → Option (List Str × Str)
+  | [] => none
+  | c :: rest =>
+    if c = cBS then
+      match rest with
+      | [] => none
+      | d :: rest' => (flatRest rest').map (fun (as, r) => (consHead [c, d] as, r))
+    else if c = cLB ∨ c = cLP then none
+    else if c = cRP then some ([[]], rest)
+    else if c = cBar then (flatRest rest).map (fun (as, r) => ([] :: as, r))
+    else (flatRest rest).map (fun (as, r) => (consHead [c] as, r))
+
+/-- Every pattern-list of the pattern is flat. -/
+def flatGroups (m : Mode) : Nat → Str → Bool
+  | 0, _ => false
+  | _ + 1, [] => true
+  | fuel + 1, c :: rest =>
+    if c = cBS then
+      match rest with
+      | [] => true
+      | _ :: r => flatGroups m fuel r
+    else if m.ext && isExtOp c && rest.head? == some cLP then
+      match flatRest rest.tail with
+      | some (_, rest') => flatGroups m fuel rest'
+      | none => false
+    else if c = cLB then
+      match scanBracket m.filenames rest with
+      | .ok _ _ rest' => flatGroups m fuel rest'
+      | _ => flatGroups m fuel rest
+    else flatGroups m fuel rest
+
+def flatLists (m : Mode) (p : Str) : Bool := flatGroups m (p.length + 1) p
 
 end ShVerif.L3
